@@ -13,6 +13,9 @@ class It:
         self.pending = list(lp.packets)   # references to the loop's packet dicts
         self.current = None
         self.finished = False
+        # refusals this iteration has seen: they change nothing observable, but the library may keep state about them
+        # (savepoints), so states that differ only in this must not be merged by the search
+        self.refusals = frozenset()
 
 
 def _match(lp, pending, delivered):
@@ -125,6 +128,7 @@ class ItrUpdate(Op):
             if a.get('rc') == MISUSE:
                 return []
         if foreign:
+            it.refusals = it.refusals | {('wrong-loop', min(len(eff), 2), list(eff)[0] in lp.names)}
             return _rc_check({WRONG_LOOP}, a, repr(self) + ' naming an item of another loop')
         p = _rc_check({OK}, a, repr(self))
         if not p:
